@@ -108,6 +108,14 @@ MUTANTS = {
     "vals_scratch_slot_dropped": ("C05", _sub(
         "iteration_graph/outputs/_append.py",
         "                    padded_size = final_size.plus(1)", "                    padded_size = final_size")),
+    # a read one element past the end of an input's crd array whose value influences nothing (the
+    # bounds test comes second in the loop condition): invisible to red zones and garbage twins,
+    # found by the guard-page placement of the simulated heap
+    "crd_read_before_bounds_check": ("C05", lambda root: (
+        _sub("iteration_graph/_generate_ir.py", "from ..ir.ast import (\n", "from ..ir.ast import (\n    GreaterThanOrEqual,\n")(root),
+        _sub("iteration_graph/_generate_ir.py",
+             "            while_criteria = And.join(\n                [\n                    LessThan(leaf.layer_pointer(), leaf.sparse_end_name())",
+             "            while_criteria = And.join(\n                [\n                    GreaterThanOrEqual(leaf.crd_name().idx(leaf.layer_pointer()), IntegerLiteral(0))\n                    for leaf in sparse_subnode_leaves\n                ]\n                + [\n                    LessThan(leaf.layer_pointer(), leaf.sparse_end_name())")(root))),
     # ---- C04
     "bucket_not_zeroed": ("C04", _sub(
         "iteration_graph/outputs/_bucket.py",
